@@ -242,3 +242,28 @@ func ReplyFor(rng *rand.Rand, q specref.Req) specref.Resp {
 	}
 	return p
 }
+
+// RunPattern returns n coils made of alternating runs whose lengths are drawn from values around byte and word
+// boundaries (1..9, 15..17, 31..33, 63..65, 127..129, 200) and whose first run starts ON or OFF at random, so that long
+// runs begin and end at aligned and unaligned positions.
+func RunPattern(rng *rand.Rand, n int) []bool {
+	out := make([]bool, n)
+	lens := []int{1, 2, 3, 7, 8, 9, 15, 16, 17, 24, 31, 32, 33, 40, 48, 56, 63, 64, 65, 72, 96, 127, 128, 129, 200}
+	on := rng.Intn(2) == 0
+	i := 0
+	if rng.Intn(2) == 0 { // random lead-in so that runs start off the byte grid
+		i = rng.Intn(9)
+		for k := 0; k < i && k < n; k++ {
+			out[k] = !on
+		}
+	}
+	for i < n {
+		l := lens[rng.Intn(len(lens))]
+		for k := 0; k < l && i < n; k++ {
+			out[i] = on
+			i++
+		}
+		on = !on
+	}
+	return out
+}
